@@ -6,6 +6,7 @@ import (
 	"encoding/json"
 	"fmt"
 	"math/big"
+	"sync"
 
 	"github.com/consensys/gnark/frontend"
 	"github.com/iden3/go-iden3-crypto/poseidon"
@@ -104,6 +105,27 @@ func posAssign(sess []posCall, outs []*big.Int) *posSessionCircuit {
 	return c
 }
 
+// posAbortCircuit: a hash whose construction fails half-way (a nil operand, as an unassigned wire of a larger circuit would be):
+// whatever the gadget was doing when it gave up must not leak into later hashes of the process
+type posAbortCircuit struct {
+	X     frontend.Variable
+	arity int
+}
+
+func (c *posAbortCircuit) Define(api frontend.API) error {
+	if c.arity == 1 {
+		abstractor.Call(api, gposeidon.Poseidon1{In: nil})
+	} else {
+		abstractor.Call(api, gposeidon.Poseidon2{In1: c.X, In2: nil})
+	}
+	return nil
+}
+
+func abortedHash(mod *big.Int, arity int) {
+	defer func() { recover() }()
+	engineSolved(&posAbortCircuit{arity: arity}, &posAbortCircuit{X: 1, arity: arity}, mod)
+}
+
 func init() {
 	commands["c05"] = func(args []string) {
 		var cs c05Cases
@@ -178,6 +200,73 @@ func init() {
 				r.Case = map[string]interface{}{"mode": cs.Mode, "p": cs.P, "r1cs": cs.R1CS, "sessions": [][]posCall{sess}}
 			}
 			emit(r)
+		}
+		// the gadget is a function of its operands: (a) hashes whose construction was abandoned half-way, (b) circuits built on several
+		// goroutines at the same time (a service compiling or solving two systems at once) must not change what later / parallel hashes compute
+		if len(cs.Sessions) == 0 {
+			return
+		}
+		recheck := func(kind string, n int) {
+			for si := 0; si < len(cs.Sessions) && si < n; si++ {
+				sess := cs.Sessions[si]
+				exp := make([]*big.Int, len(sess))
+				for i, c := range sess {
+					exp[i] = c.Out.big()
+				}
+				r := Result{ID: fmt.Sprintf("%s/p=%s/%s/session%d", cs.Mode, cs.P, kind, si), OK: true, Kind: "poseidon-" + kind, Trivial: true}
+				if err := engineSolved(posShape(sess), posAssign(sess, exp), mod); err != nil {
+					r.OK = false
+					r.Detail = fmt.Sprintf("%s: the test engine now rejects outputs of session %d that it accepted before: %s", kind, si, firstLine(err.Error()))
+					r.Case = map[string]interface{}{"mode": cs.Mode, "p": cs.P, "r1cs": cs.R1CS, "sessions": cs.Sessions}
+				}
+				emit(r)
+			}
+		}
+		abortedHash(mod, 2)
+		recheck("after-aborted-hash-2", 4)
+		abortedHash(mod, 1)
+		abortedHash(mod, 2)
+		abortedHash(mod, 2)
+		recheck("after-aborted-hashes", 4)
+		if cs.R1CS {
+			type cres struct {
+				si  int
+				err error
+			}
+			n := len(cs.Sessions)
+			if n > 6 {
+				n = 6
+			}
+			out := make(chan cres, 64)
+			var wg sync.WaitGroup
+			for round := 0; round < 3; round++ {
+				for si := 0; si < n; si++ {
+					wg.Add(1)
+					go func(si int) {
+						defer wg.Done()
+						sess := cs.Sessions[si]
+						exp := make([]*big.Int, len(sess))
+						for i, c := range sess {
+							exp[i] = c.Out.big()
+						}
+						ccs, err := compileR1CS(mod, posShape(sess))
+						if err == nil {
+							err = r1csSolved(ccs, posAssign(sess, exp), mod)
+						}
+						out <- cres{si, err}
+					}(si)
+				}
+			}
+			wg.Wait()
+			close(out)
+			for x := range out {
+				r := Result{ID: fmt.Sprintf("%s/p=%s/concurrent-compile/session%d", cs.Mode, cs.P, x.si), OK: x.err == nil, Kind: "poseidon-concurrent", Trivial: true}
+				if x.err != nil {
+					r.Detail = fmt.Sprintf("session %d compiled and solved on one of %d goroutines working at the same time rejects the spec's outputs: %s", x.si, 3*n, firstLine(x.err.Error()))
+					r.Case = map[string]interface{}{"mode": cs.Mode, "p": cs.P, "r1cs": cs.R1CS, "sessions": cs.Sessions}
+				}
+				emit(r)
+			}
 		}
 	}
 }
